@@ -34,12 +34,16 @@ def make_call(nd, cls, method, n, order, dim, xc, fc, bad_size=False, steps=None
         x = np.linspace(0.5, 1.5, dim)
         if xc == 2:
             x = x + 0.25j * (np.arange(dim) == dim - 1)      # only the last element is complex
+        elif xc == 3:
+            x = x + 1e-17j                                   # complex by a round-off sized (but nonzero) imaginary part
         elif xc:
             x = x + 0.25j
         if bad_size:
             f = (lambda t: np.ones(np.size(t) + 1)) if dim > 1 or True else None
         elif fc == 2:
             f = lambda t: np.where(np.arange(np.size(t)) == 0, 1j, 1.0).reshape(np.shape(t)) * np.exp(t)    # only the first value is complex
+        elif fc == 3:
+            f = lambda t: (1 + 1e-16j) * np.exp(t)          # round-off sized (but nonzero) imaginary part: exp(i pi x) at an integer x
         elif fc:
             f = lambda t: (1 + 1j) * np.exp(t)
         else:
@@ -49,10 +53,14 @@ def make_call(nd, cls, method, n, order, dim, xc, fc, bad_size=False, steps=None
         x = np.linspace(0.5, 1.5, dim)
         if xc == 2:
             x = x + 0.25j * (np.arange(dim) == dim - 1)
+        elif xc == 3:
+            x = x + 1e-17j
         elif xc:
             x = x + 0.25j
         if fc == 2 and cls == 'Jacobian':
             f = lambda t: np.array([np.sum(np.exp(t)), 1j * np.prod(t), np.sum(t ** 2)])     # one complex component of three
+        elif fc == 3:
+            f = lambda t: (1 + 1e-16j) * np.sum(np.exp(t))
         elif fc:
             f = lambda t: (1 + 1j) * np.sum(np.exp(t))
         else:
@@ -85,8 +93,8 @@ def run(ctx):
     for cls in CLASSES:
         methods = ['central', 'forward', 'backward', 'complex', 'multicomplex'] + (['central2'] if cls == 'Hessian' else [])
         for m in methods:
-            for xc in (0, 1, 2):
-                for fc in (0, 1, 2):
+            for xc in (0, 1, 2, 3):
+                for fc in (0, 1, 2, 3):
                     for dim in (1, 2, 3):
                         if (xc == 2 or fc == 2) and dim == 1:
                             continue            # "partly complex" needs two elements
